@@ -334,7 +334,7 @@ func init() {
 	Register(Spec[nCase]{
 		ID: "C12", Suite: "hist", CoqImports: []string{"Model.OfferShape", "Check.C12"},
 		CoqType: "list (bool * list op)", CoqRun: nCoqRun("Check.C12.run", "Check.C12.run_d"),
-		Quick: 300, Thorough: 8000, Parallel: 8, Timeout: 60 * time.Second,
+		Quick: 300, Thorough: 3000, Parallel: 8, Timeout: 60 * time.Second,
 		Corpus: corpus,
 		Gen:    func(r *Rand, i int) nCase { return nGenCase(r, true) },
 		Run: func(c nCase) (V, Verdict) {
@@ -505,7 +505,7 @@ func init() {
 	Register(Spec[tdCase]{
 		ID: "C12", Suite: "tdetails", CoqImports: []string{"Model.OfferShape", "Check.C12"},
 		CoqType: "sec", CoqRun: "Check.C12.run_td",
-		Quick: 250, Thorough: 6000, Parallel: 8, Timeout: 30 * time.Second,
+		Quick: 150, Thorough: 1500, Parallel: 8, Timeout: 30 * time.Second,
 		Corpus: func() []tdCase {
 			return []tdCase{
 				{Kind: 2, Dir: 1, ID: "ta", Stream: "s1", Engine: 2},
